@@ -3,6 +3,7 @@ package interp
 // gosym: symbolic scalars, path state, Branch with decision-prefix replay.
 
 import (
+	"runtime"
 	"fmt"
 	"go/token"
 	"go/types"
@@ -71,6 +72,8 @@ type PathState struct {
 	Known    []KnownFinding
 	KnownHit []string
 	fresh    map[string]int
+	known    map[*term.Term]bool // conditions already decided on this path
+	refine   map[*term.Term]*bset // byte terms narrowed by class decisions on this path
 }
 
 type KnownFinding struct {
@@ -81,6 +84,7 @@ type KnownFinding struct {
 }
 
 var P *PathState
+var QProf map[string]int
 var KnownFindings []KnownFinding
 var S *solver.Session
 
@@ -113,6 +117,7 @@ var Cfg = struct {
 	AssertTO   int
 	Verbose    bool
 	NoPanicViol bool
+	NoInjectivity bool
 }{MaxSteps: 2000000, Sched: "det", Stubs: map[string]string{}, Params: map[string]int{}}
 
 func newPathState(prefix []Decision) *PathState {
@@ -149,6 +154,23 @@ func addPC(c *term.Term) {
 		return
 	}
 	P.PC = append(P.PC, c)
+	if P.known == nil {
+		P.known = map[*term.Term]bool{}
+	}
+	if c.Op == "not" {
+		P.known[c.Args[0]] = false
+	} else {
+		P.known[c] = true
+		if c.Op == "and" { // conjuncts are known too
+			for _, a := range c.Args {
+				if a.Op == "not" {
+					P.known[a.Args[0]] = false
+				} else {
+					P.known[a] = true
+				}
+			}
+		}
+	}
 	S.Assert(c)
 }
 
@@ -162,6 +184,14 @@ func Branch(c *term.Term) bool {
 	if c.IsFalse() {
 		return false
 	}
+	if v, ok := P.known[c]; ok {
+		return v
+	}
+	if c.Op == "not" {
+		if v, ok := P.known[c.Args[0]]; ok {
+			return !v
+		}
+	}
 	if P.Pos < len(P.Prefix) {
 		d := P.Prefix[P.Pos]
 		if d.K != 'b' {
@@ -174,6 +204,18 @@ func Branch(c *term.Term) bool {
 			addPC(term.Not(c))
 		}
 		return d.T
+	}
+	if QProf != nil {
+		QProf["TOTAL-branch-queries"]++
+		for k := 1; k < 6; k++ {
+			if pc, _, _, ok := runtime.Caller(k); ok {
+				n := runtime.FuncForPC(pc).Name()
+				if !strings.HasSuffix(n, ".Branch") && !strings.HasSuffix(n, ".decide") {
+					QProf[n]++
+					break
+				}
+			}
+		}
 	}
 	rt, _ := S.Check(c, nil)
 	var rf solver.Result
@@ -233,6 +275,13 @@ func branchFresh(c *term.Term) bool {
 	P.Pos++
 	addPC(c)
 	return true
+}
+
+func impliedKnown(c *term.Term, v bool) {
+	if P.known == nil {
+		P.known = map[*term.Term]bool{}
+	}
+	P.known[c] = v
 }
 
 // decide turns a bool-ish value into a concrete bool, branching if symbolic.
